@@ -169,6 +169,7 @@ var verifSelectors = []verifSel{
 	{"b.a", []string{"b", "a"}}, {"c", []string{"c"}}, {"a.b.c", []string{"a", "b", "c"}}, {"b.x", []string{"b", "x"}},
 	{"a.z.y", []string{"a", "z", "y"}}, {"a.c", []string{"a", "c"}},
 	{`a\.b.c`, []string{"a.b", "c"}}, {"a-x", []string{"a-x"}},
+	{`a.\.h`, []string{"a", ".h"}},
 }
 
 // event shapes: keys may contain dots; values are scalars, objects, arrays
@@ -178,7 +179,7 @@ func verifDocs() []*verifNode {
 		verifObj("a", verifObj("b", `1`, "c", `2`), "b", verifObj("a", `3`, "x", `[1,2]`), "a.b", `"dotted"`),
 		verifObj("a.b", `1`, "a", verifObj("b", verifObj("c", `7`, "d", `8`), "z", `null`), "c", `[{"a":1}]`, "b", `5`),
 		verifObj("a", `"scalar"`, "b", verifObj("x", verifObj("a", `1`)), "k1", `1`, "k2", `2`, "k3", `3`),
-		verifObj("a-x", `1`, "a.b", verifObj("c", `1`, "d", `2`), "a", verifObj("b", `3`, "c", `4`, "a.b", `5`)),
+		verifObj("a-x", `1`, "a.b", verifObj("c", `1`, "d", `2`), "a", verifObj("b", `3`, "c", `4`, "a.b", `5`, ".h", `6`)),
 		verifWide(),
 	}
 }
